@@ -190,7 +190,7 @@ def build_pda(case, scheme="plain", lazy=False):
     m = pdamod()
     q, g, trans, fi = case
     sn, kn = GP.names(scheme, q, g)
-    if lazy:
+    if lazy is True:
         # nothing declared up front: start state/symbol, transitions and final states added one by one
         p = m.PDA()
         p.set_start_state(sn[0])
@@ -201,6 +201,15 @@ def build_pda(case, scheme="plain", lazy=False):
             if fi >> i & 1:
                 p.add_final_state(sn[i])
         return p
+    if lazy == "tf_only":
+        # the documented constructor argument transition_function; states and alphabets are whatever it mentions
+        from pyformlang.pda.transition_function import TransitionFunction
+        tf = TransitionFunction()
+        for s, a, X, r, gamma in trans:
+            tf.add_transition(m.State(sn[s]), m.Epsilon() if a == 0 else m.Symbol(GP.IN[a]), m.StackSymbol(kn[X]),
+                              m.State(sn[r]), [m.StackSymbol(kn[y]) for y in gamma])
+        return m.PDA(transition_function=tf, start_state=sn[0], start_stack_symbol=kn[0],
+                     final_states={sn[i] for i in range(q) if fi >> i & 1})
     p = m.PDA(states=set(sn), input_symbols={"a", "b"}, stack_alphabet=set(kn), start_state=sn[0],
               start_stack_symbol=kn[0], final_states={sn[i] for i in range(q) if fi >> i & 1})
     for s, a, X, r, gamma in trans:
@@ -249,7 +258,9 @@ def build_fst(case, scheme="str"):
     nm = GT.names(scheme, q)
     f = FST()
     for p, a, r, o in trans:
-        f.add_transition(nm[p], "epsilon" if a == 0 else GT.IN[a], nm[r], list(GT.outs(scheme)[o]))
+        out = GT.outs(scheme)[o]
+        # "+tuple": the output word given as a tuple (documented: any iterable)
+        f.add_transition(nm[p], "epsilon" if a == 0 else GT.IN[a], nm[r], tuple(out) if scheme.endswith("+tuple") else list(out))
     for i in range(q):
         if st >> i & 1:
             f.add_start_state(nm[i])
